@@ -118,7 +118,7 @@ PROPS = {
 NOT_APPLICABLE = {p: "check exists (model, theorems, engine committed) but is being reconciled with the merged tree: two repairs landed in the same receiver loop and the model must follow before the check is claimed (DESIGN.md §9)" for p in
                   ["C%02d" % i for i in range(1, 21)]}
 # properties whose check exists but is being reconciled with the current tree (not claimed in MANIFEST meanwhile)
-HOLD = ["C17"]
+HOLD = []
 HOOK_COMMITS = ["c6f7867", "24f55f1", "656796a"]
 
 PROPS["C16"] = {'assumptions': ['HKDF-SHA256 is injective on the secrets in use (collision resistance)',
@@ -343,7 +343,9 @@ PROPS["C17"] = {'assumptions': ["sync.Mutex / sync.RWMutex mutual exclusion, syn
                "constructors are exempt (writes before publication), 'guarded write' means lexically under an if/for/switch. DebugDump / InvalidateExpired "
                'read each entry under its own lock, so with concurrent RenewLease they are atomic per entry, not a snapshot across entries (the workloads keep '
                "an entry's expiry class fixed so that histories stay linearizable). Established stream = digests frozen, keyed => encrypting, no secret toggle "
-               'open; toggling the crypto mode (SetCryptoMode(false) + PutSecret) while the other goroutine receives is outside the property.',
+               'open; the base IV (encryptIV) is in the shared read-only part: both directions read it (the receiver for the reflection check of fix D16), '
+               'only SetSymmetricKey writes it. Outside the property: a secret toggle left open; toggling the crypto mode (SetCryptoMode(false) + PutSecret) '
+               'while the other goroutine receives is outside the property.',
  'level_text': 'lockset_sound (Eraser soundness for any number of threads over mutexes with a shared mode), cache_discipline (every method of SessionCache / '
                'SessionEntry in the regenerated fact table obeys the declared guard policy and releases its locks, hence no interleaving of any threads '
                'calling any of them on any objects has a data race on any field), cache_atomic_sections (each cache method is one critical section), '
